@@ -80,7 +80,7 @@ def run_bmc(stats, lib, inputs: dict, outputs: list, K: int, make_monitor, *, cl
         bad = D.b_or(bad, c)
     for c, m, w, tm in sim.errors:
         bad = D.b_or(bad, c)
-    s = z3.Solver()
+    s = z3.SolverFor("QF_BV")
     s.set("timeout", timeout_ms)
     for c in sim.constraints:
         s.add(c)
